@@ -205,7 +205,8 @@ def merge_evidence(pid, tier, seed, t0, parts, tables, new, known, assumptions):
     cov["evaluations"] = cov.get("evaluations", 0) + sum(t["cases"] for t in tables)
     cov["distinct_nontrivial"] = cov.get("distinct_nontrivial", 0) + sum(t["cases"] for t in tables)
     cov["traces_validated_against_impl"] = cov.get("traces_validated_against_impl", 0) + sum(t["cases"] for t in tables)
-    cov.setdefault("samples", [])
+    if not cov.get("samples"):
+        cov["samples"] = [x for t in tables for x in t["samples"]][:12]
     cov.setdefault("rule", "table cases = abstract cases exported by TLC from the design run, each executed once on the real code")
     cov["known_findings_seen"] = known
     cov.setdefault("exhaustive", False)
